@@ -84,14 +84,16 @@ def main():
     meta["detected_by"] = [p for p, r in results.items() if r["exit"] != 0]
     meta["detected_with_failing_input"] = [p for p, r in results.items() if any(l.startswith("VIOLATION") and "no-failing-input-found" not in l for l in r["lines"])]
     d = os.path.join(ROOT, "seeded", sid); os.makedirs(d, exist_ok=True)
-    if a.skip_confirm and os.path.exists(os.path.join(d, "meta.json")):
+    if os.path.exists(os.path.join(d, "meta.json")):
         old = json.load(open(os.path.join(d, "meta.json")))
         for k, v in old.items():
             if k not in meta or k in ("demo_cmd", "demo_dst"):
                 meta[k] = v
         hist = old.get("history", [])
-        hist.append({"detected_by_before_strengthening": old.get("detected_by", []), "checks": {p: r["lines"][-1:] for p, r in old.get("checks_run", {}).items()}})
+        hist.append({"detected_by_earlier": old.get("detected_by", []), "repo_head": old.get("repo_head", "pinned commit + hooks"),
+                     "checks": {p: r["lines"][-1:] for p, r in old.get("checks_run", {}).items()}})
         meta["history"] = hist
+    meta["repo_head"] = subprocess.run(["git", "-C", "/repo", "log", "--format=%h", "-1"], stdout=subprocess.PIPE, text=True).stdout.strip()
     if os.path.abspath(src) != os.path.abspath(d):
         shutil.copyfile(patch, os.path.join(d, "patch.diff"))
         shutil.copyfile(os.path.join(src, a.demo_src), os.path.join(d, os.path.basename(a.demo_src)))
